@@ -13,12 +13,24 @@ from vf.runner import Violation, finish, tier_seed
 FF_CODEMODS = ["pixee:python/use-set-literal", "pixee:python/invert-boolean-check", "pixee:python/unused-imports", "pixee:python/use-generator", "pixee:python/fix-empty-sequence-comparison", "pixee:python/remove-unnecessary-f-str"]
 FF_SEMGREP = ["pixee:python/secure-random", "pixee:python/requests-verify"]
 
+def relayout(text: str, k: int) -> bytes:
+    """real projects are not uniform: some files carry a BOM, some CRLF, some no final newline"""
+    kind = ("lf", "lf", "bom", "crlf", "nonl", "lf")[k % 6]
+    if kind == "bom": return b"\xef\xbb\xbf" + text.encode()
+    if kind == "crlf": return text.replace("\n", "\r\n").encode()
+    if kind == "nonl": return text.rstrip("\n").encode()
+    return text.encode()
+
 def ff_project(rnd, n):
     files = {}
+    # the same base names in several directories (helpers.py, __init__.py), each with something to fix, and files of very different sizes
+    for d in ("pkg0", "pkg1", "pkg2", "pkg0/sub"):
+        files[f"{d}/helpers.py"] = relayout(f"import os\nH_{d.replace('/', '_')} = set([1, 2])\n" + "".join(f"pad_{i} = {i}\n" for i in range(rnd.choice((0, 40, 400)))), rnd.randint(0, 5))
+        files[f"{d}/__init__.py"] = relayout(f"def init_{d.replace('/', '_')}(a, b):\n    return not a == b\n", rnd.randint(0, 5))
     for i in range(n):
         body = [f"import os\nx{i} = set([{i}])\n", f"def f{i}(a, b):\n    if not a == b:\n        return {i}\n    return 0\n", f"import random\nv{i} = random.random()\n", f"y{i} = {i}\n",
                 f"t{i} = any([z > {i} for z in range(9)])\n", f"import requests\nr{i} = requests.get('u{i}', verify=False)\n", f"s{i} = f'plain {i}'\nif s{i} != '':\n    pass\n"][i % 7]
-        files[f"pkg{i % 3}/m{i:02d}.py"] = body.encode()
+        files[f"pkg{i % 3}/m{i:02d}.py"] = relayout(body, rnd.randint(0, 5))
     return files
 
 URL = 'import requests\nfrom flask import Flask, request\napp = Flask(__name__)\n@app.route("/e")\ndef example():\n    url = request.args["url"]\n    requests.get(url)\n'
@@ -57,7 +69,9 @@ def run_one(case):
     if case.get("yield"): mon["yield"] = case["yield"]
     try:
         r = subprocess.run([env.PY, "-m", "vf.cli_boot", os.path.join(d, "trace.json"), json.dumps(mon), proj, "--"] + argv, env=e, capture_output=True, text=True, timeout=900)
-        tr = json.load(open(os.path.join(d, "trace.json"))); rep = json.load(open(os.path.join(d, "out.json")))
+        tr = json.load(open(os.path.join(d, "trace.json")))
+        try: rep = json.load(open(os.path.join(d, "out.json")))
+        except (OSError, ValueError): rep = None     # the run did not get as far as its report: an observable outcome, not a harness problem
         tree = {}
         for dp, dn, fn in os.walk(proj):
             for f in fn:
@@ -71,6 +85,7 @@ def run_one(case):
     return out
 
 def norm(rep, proj):
+    if rep is None: return "NO-REPORT"
     r = copy.deepcopy(rep); r["run"]["elapsed"] = 0; r["run"]["directory"] = ""; r["run"]["commandLine"] = ""
     return json.dumps(r, sort_keys=True).replace(proj, "P")
 
@@ -86,7 +101,7 @@ def plan(tier, seed):
         files = ff_project(rnd, n)
         cms = list(FF_CODEMODS) + ([rnd.choice(FF_SEMGREP)] if (g % 2 == 0) else [])
         rnd.shuffle(cms)
-        groups.append({"mode": "find-and-fix", "files": files, "result_files": {}, "argv": ["--codemod-include", ",".join(cms)], "sibling_probe": sorted(files)[:: max(1, n // 3)][:3], "codemods": cms})
+        groups.append({"mode": "find-and-fix", "files": files, "result_files": {}, "argv": ["--codemod-include", ",".join(cms)], "sibling_probe": sorted(files)[:: max(1, n // 3)][:3] + ["pkg1/helpers.py"], "codemods": cms})
         sfiles, res = sast_project(rnd, rnd.choice((9, 12, 18)))
         groups.append({"mode": "sast", "files": sfiles, "result_files": res, "argv": ["--sonar-issues-json", "{dir}/issues.json", "--sonar-hotspots-json", "{dir}/hotspots.json", "--sarif", "{dir}/semgrep.sarif", "--defectdojo-findings-json", "{dir}/dd.json"], "sibling_probe": []})
     cases = []
@@ -119,8 +134,6 @@ def judge_group(gi, G, items):
             viols.append(Violation("C11", "max-workers-exceeded", f"{mx} files in flight with --max-workers {c['w']}", {"w": c["w"], "max_inflight": mx, "mode": c["mode"], "n_files": len(c["files"])}, jobs=[strip(c)]))
         off = [e for e in r["trace"]["events"] if e["k"] == "ctx_mut" and not e["main"]]
         if off: viols.append(Violation("C11", "aggregates-mutated-off-coordinating-thread", f"{off[0]['method']} called from a worker thread", {"event": off[0]}, jobs=[strip(c)]))
-        if r["rc"] != 0:
-            viols.append(Violation("C11", f"run-failed/{c['mode']}", f"rc={r['rc']}", {"w": c["w"], "hashseed": c["hashseed"]}, jobs=[strip(c)])); continue
         sig = hashlib.sha1((norm(r["report"], r["proj"]) + json.dumps(r["tree"], sort_keys=True)).encode()).hexdigest()
         outs[sig].append((c, r))
         if ref is None: ref = (c, r)
@@ -130,6 +143,11 @@ def judge_group(gi, G, items):
         disjoint_hash = not any(set(a) & set(b) for k, a in enumerate(hs) for b in hs[k + 1:])
         ws_ = [sorted({c["w"] for c, _ in cl}) for cl in classes]
         (c1, r1), (c2, r2) = classes[0][0], classes[1][0]
+        if r1["report"] is None or r2["report"] is None:
+            bad = r1 if r1["report"] is None else r2; badc = c1 if r1["report"] is None else c2
+            viols.append(Violation("C11", "some-executions-abort/" + G["mode"], f"the same (project, argv) completes in some executions and aborts in others: rc={bad['rc']} exc={bad['trace'].get('exc')} with w={badc['w']}",
+                                   {"mode": G["mode"], "workers_by_output": ws_, "exc": bad["trace"].get("exc")}, jobs=[strip(c1), strip(c2)]))
+            return viols, dict(info, sibling_checked=0)
         tree_diff = sorted(k for k in set(r1["tree"]) | set(r2["tree"]) if r1["tree"].get(k) != r2["tree"].get(k))
         o1 = [x["codemod"] for x in r1["report"]["results"]]; o2 = [x["codemod"] for x in r2["report"]["results"]]
         what = "tree differs: " + str(tree_diff[:4]) if tree_diff else ("results[] order differs" if o1 != o2 and sorted(o1) == sorted(o2) else "report differs")
@@ -140,7 +158,7 @@ def judge_group(gi, G, items):
     sib = 0
     if ref is not None:
         for c, r in items:
-            if c["kind"] != "single-file" or r["rc"] != 0: continue
+            if c["kind"] != "single-file" or r["rc"] != 0 or r["report"] is None or ref[1]["report"] is None: continue
             sib += 1
             a = per_file(ref[1]["report"], ref[1]["tree"], c["rel"]); b = per_file(r["report"], r["tree"], c["rel"])
             if a != b:
@@ -174,7 +192,7 @@ def main():
             c, r = by[gi][0]
             ev = [e for e in r["trace"]["events"] if e["k"] in ("file_begin", "file_end")][:12]
             samples.append({"mode": c["mode"], "n_files": len(c["files"]), "argv": c["argv"], "w": c["w"], "hashseed": c["hashseed"], "delay_seed": c["delay_seed"], "order_seed": c["order_seed"],
-                            "schedule_prefix": [(e["k"], os.path.basename(e["path"]), e.get("inflight")) for e in ev], "results_order": [x["codemod"] for x in r["report"]["results"]][:8]})
+                            "schedule_prefix": [(e["k"], os.path.basename(e["path"]), e.get("inflight")) for e in ev], "results_order": [x["codemod"] for x in (r["report"] or {"results": []})["results"]][:8]})
     return finish("C11", "exploration", tier, seed, t0, evaluations=n + sib, nontrivial=nontrivial, violations=viols, min_nontrivial=16, counters=counters, deciding_counters=("process_file", "ctx_add_changesets"),
                   inconclusive_cases=inconcl, samples=samples, module=__name__,
                   stats={"distinct_schedule_signatures": len(sigs), "executions_with_overlapping_work_items": overlap, "max_inflight_by_workers": dict(hist), "sibling_independence_probes": sib, "perturbations": dict(perturb)},
